@@ -595,6 +595,12 @@ def run(tier, seed):
                     x2 = fresh(V[nm], nm)
                     query("c04_signers_duplicate_id_%s_%d_of_%d" % (fld, idx, NB), "two certificates whose %d signers include two entries with the same party id and that differ only in the %s of entry %d have different hashes" % (NB, fld, idx),
                           [(V[nm], x2)], V[nm] != x2, [p0 == p1], role="c04-signers-duplicate-id-%s" % fld, field=nm, replay_builder=simple_spec(nm, "int"))
+            # the fields of the last entry of the longer list on their own (the per-field loop above ran on the shorter list)
+            for fld in ("party_id", "stake"):
+                nm = "c.metadata.signers[%d].%s" % (NB - 1, fld)
+                x2 = fresh(V[nm], nm)
+                query("c04_field_metadata_signers_%d_%s_of_%d" % (NB - 1, fld, NB), "two certificates with %d signers that differ only in the %s of the last one have different hashes (all values)" % (NB, fld),
+                      [(V[nm], x2)], V[nm] != x2, [], field=nm, replay_builder=simple_spec(nm, "str" if z3.is_string(V[nm]) else "int"))
         rep.functions += sorted(set("%s -> %s" % (a, b) for a, b in ctx.I.calls_seen.items() if b.startswith("mir:")))
     except Unencodable as e:
         rep.inconcl("unencodable: %s" % e)
